@@ -36,16 +36,81 @@ def _install():
     from . import fsmon, receng, tocoracle
 
     _ledger = fsmon.Ledger()
+    depth = {"merge": 0}
+
+    # Tests that tamper with container files on purpose (to see an open fail) do so with Python-level file operations from
+    # test code; h5py works below the audit layer and metador_core's own Python-level writes come from its modules. A
+    # write-open / truncate / rename of a ledgered file issued from a frame of the test suite takes the file out of the ledger.
+    import sys
+
+    def _api_entry(f):
+        """Name of the outermost metador_core function of the contiguous metador_core frames above f (the function the
+        test called), None if the write does not come from the library at all. A test calling IH5UserBlock.save /
+        IH5Manifest.save itself ('save') is tampering, not a record-level operation."""
+        entry = None
+        for _ in range(40):
+            if f is None:
+                break
+            fn = f.f_code.co_filename
+            if "/metador_core/" in fn:
+                entry = f.f_code.co_name
+            elif entry is not None and "/tests/" in fn:
+                break
+            f = f.f_back
+        return entry
+
+    import h5py
+    orig_h5init = h5py.File.__init__
+
+    def h5init(self, name, mode="r", *a, **k):
+        try:
+            if mode != "r" and _ledger is not None and isinstance(name, (str, bytes, os.PathLike)) and _api_entry(sys._getframe(1)) is None:
+                q = os.path.abspath(os.fsdecode(name))
+                if q in _ledger.entries:
+                    _ledger.forget(q)
+                    REPORT["tampered_by_test"] = REPORT.get("tampered_by_test", 0) + 1
+        except Exception:
+            pass
+        return orig_h5init(self, name, mode, *a, **k)
+    h5py.File.__init__ = h5init
+
+    def audit(event, args):
+        if event not in ("open", "os.truncate", "os.rename", "os.remove", "shutil.copyfile", "shutil.move") or _ledger is None or not _ledger.entries:
+            return
+        try:
+            if event == "open":
+                path, mode = args[0], args[1] or ""
+                flags = args[2] if len(args) > 2 and isinstance(args[2], int) else 0
+                if not (set("wax+") & set(str(mode))) and not (flags & (os.O_WRONLY | os.O_RDWR)):
+                    return
+                paths = [path]
+            elif event in ("shutil.copyfile", "shutil.move", "os.rename"):
+                paths = [args[0], args[1]]
+            else:
+                paths = [args[0]]
+            if _api_entry(sys._getframe(1)) not in (None, "save"):
+                return  # written by the library on behalf of a record-level call
+            for q in paths:
+                if isinstance(q, (str, bytes, os.PathLike)):
+                    q = os.path.abspath(os.fsdecode(q))
+                    if q in _ledger.entries:
+                        _ledger.forget(q)
+                        REPORT["tampered_by_test"] = REPORT.get("tampered_by_test", 0) + 1
+        except Exception:
+            pass
+    sys.addaudithook(audit)
 
     def note(rec):
         try:
+            if depth["merge"]:
+                return  # the merge target is under construction until merge_files returns
             if rec is None or getattr(rec, "_closed", True):
                 return
             for p in rec.ih5_files:
                 if receng.is_committed_on_disk(p):
-                    _ledger.add(p)
+                    _ledger.add(os.path.abspath(p))
                     if receng.sidecar(p).exists():
-                        _ledger.add(receng.sidecar(p))
+                        _ledger.add(os.path.abspath(receng.sidecar(p)))
         except Exception:
             pass
 
@@ -64,9 +129,13 @@ def _install():
         @functools.wraps(orig)
         def w(self, *a, **k):
             REPORT["calls"][name] = REPORT["calls"].get(name, 0) + 1
+            if name == "merge_files":
+                depth["merge"] += 1
             try:
                 return orig(self, *a, **k)
             finally:
+                if name == "merge_files":
+                    depth["merge"] -= 1
                 check(name)
                 note(self)
         setattr(R.IH5Record, name, w)
@@ -77,8 +146,8 @@ def _install():
 
     def delete_files(cls, record):
         for p in cls.find_files(Path(record)):
-            _ledger.forget(p)
-            _ledger.forget(receng.sidecar(p))
+            _ledger.forget(os.path.abspath(p))
+            _ledger.forget(os.path.abspath(receng.sidecar(p)))
         return orig_del(cls, record)
     R.IH5Record.delete_files = classmethod(delete_files)
     orig_create = R.IH5Record._create.__func__
@@ -86,8 +155,8 @@ def _install():
     def _create(cls, record, truncate=False):
         if truncate:
             for p in cls.find_files(Path(record)):
-                _ledger.forget(p)
-                _ledger.forget(receng.sidecar(p))
+                _ledger.forget(os.path.abspath(p))
+                _ledger.forget(os.path.abspath(receng.sidecar(p)))
         return orig_create(cls, record, truncate)
     R.IH5Record._create = classmethod(_create)
 
